@@ -48,7 +48,7 @@ func init() {
 	})
 	register(&Property{
 		ID: "C31",
-		Explanation: "Decides the ordering of the v1→v2 config replacement: (config-replace-order) UpgradeRepo upgrades only version 1, loads the raw old config and writes it to a local backup file before upgradeRepository runs, re-uploads exactly those raw bytes whenever upgradeRepository failed, and deletes the backup only after success; upgradeRepository reports success only if SaveConfig succeeded and writes Version = 2. The rule also demands that the old config is not removed before the new one is stored; on backends without atomic replace (rest, mem, sftp without posix rename) the code removes it first — a crash between Remove and SaveConfig leaves the repository without a config. That is a genuine defect of the pinned tree which cannot be repaired by a small patch (the backend interface has no rename); it is listed in known_findings.txt and reported as KNOWN-FINDING; (save-reader-hash) every reader that package repository hands to Backend.Save carries the content hash the backend asks for — a ByteReader built with the backend's Hasher(), a FileReader with the sum of a hashing.Reader over that hasher; the rollback of a failed upgrade re-uploaded the old config with a nil hasher, which hash-verifying backends reject, leaving no config at all (genuine defect, demonstrated, fixed). Not decided: that snapshots stay restorable with unchanged content (no data is rewritten by the upgrade: the only repository write is the config).",
+		Explanation: "Decides the ordering of the v1→v2 config replacement: (config-replace-order) UpgradeRepo upgrades only version 1, loads the raw old config and writes it to a local backup file before upgradeRepository runs, re-uploads exactly those raw bytes whenever upgradeRepository failed — after removing what the failed attempt left behind on backends without atomic replace, and without removing anything where files are replaced atomically (genuine defect, fixed in /repo: the rollback removed the intact old config, and a second failed upload left none) —, and deletes the backup only after success; upgradeRepository reports success only if SaveConfig succeeded and writes Version = 2. A removal of the old config that precedes the save lies behind HasAtomicReplace == false, so on backends that replace atomically the config is never absent (added after a seeded change that removed it unconditionally). The rule also demands that the old config is not removed before the new one is stored; on backends without atomic replace (rest, mem, sftp without posix rename) the code removes it first — a crash between Remove and SaveConfig leaves the repository without a config. That is a genuine defect of the pinned tree which cannot be repaired by a small patch (the backend interface has no rename); it is listed in known_findings.txt and reported as KNOWN-FINDING; (save-reader-hash) every reader that package repository hands to Backend.Save carries the content hash the backend asks for — a ByteReader built with the backend's Hasher(), a FileReader with the sum of a hashing.Reader over that hasher; the rollback of a failed upgrade re-uploaded the old config with a nil hasher, which hash-verifying backends reject, leaving no config at all (genuine defect, demonstrated, fixed). Not decided: that snapshots stay restorable with unchanged content (no data is rewritten by the upgrade: the only repository write is the config).",
 		Assumptions: commonAssumptions,
 		Technique:   "static analysis: CFG edge cuts around the config replacement (go/ssa); one known finding",
 		Run: func(c *eng.Ctx) {
@@ -58,6 +58,10 @@ func init() {
 		Controls: []Control{
 			{Name: "upgrade-without-backup", File: "internal/repository/upgrade_repo.go",
 				Old: "	if err != nil {\n		return fmt.Errorf(\"write config file backup to %v failed: %w\", tempdir, err)\n	}\n", New: "	if err != nil {\n		fmt.Printf(\"write config file backup to %v failed: %v\", tempdir, err)\n	}\n", Rule: "config-replace-order"},
+			{Name: "rollback-removes-on-every-backend", File: "internal/repository/upgrade_repo.go",
+				Old: "		if !repo.be.Properties().HasAtomicReplace {\n			// the failed upgrade removed", New: "		if !repo.be.Properties().HasAtomicReplace || err != nil {\n			// the failed upgrade removed", Rule: "config-replace-order"},
+			{Name: "config-removed-on-every-backend", File: "internal/repository/upgrade_repo.go",
+				Old: "	if !repo.be.Properties().HasAtomicReplace {\n		// remove the original file", New: "	if !repo.be.Properties().HasAtomicReplace || repo.Config().Version == 1 {\n		// remove the original file", Rule: "config-replace-order"},
 			{Name: "upgrade-any-version", File: "internal/repository/upgrade_repo.go",
 				Old: "	if repo.Config().Version != 1 {", New: "	if repo.Config().Version > 2 {", Rule: "config-replace-order"},
 			{Name: "no-reupload-on-failure", File: "internal/repository/upgrade_repo.go",
